@@ -54,7 +54,7 @@ type task struct {
 	yields    uint64 // task-local yield count (the schedule's clock)
 	opYields  uint64 // yields since the current API call began
 	swIdx     int    // next entry of sw[] to consider
-	recent    [4]int // the last few distinct sites visited (tight-loop detection)
+	recent    [6]int // the last few distinct sites visited (tight-loop detection)
 	streak    uint64 // consecutive steps that stayed within `recent`
 	aborting  bool   // this task has been sent the Abort panic
 	grace     uint64 // yields let through since then (deferred calls while unwinding)
@@ -459,10 +459,10 @@ func tightLoop(t *task, site int) bool {
 	for i := range t.recent {
 		if t.recent[i] == site {
 			t.streak++
-			return t.streak > 100000000
+			return t.streak > 3000000
 		}
 	}
-	copy(t.recent[1:], t.recent[:3])
+	copy(t.recent[1:], t.recent[:5])
 	t.recent[0] = site
 	t.streak = 0
 	return false
